@@ -203,6 +203,54 @@ def gen():
             elif allowed_calls[fld] is not None and meth not in allowed_calls[fld]:
                 mutated.append("mod.rs:%s calls self.%s.%s" % (fn, fld, meth))
     out.append("(* builder state (other than the reporter) that DictBuilder::compile or its callees change *)\nDefinition compile_mutated_state : list string := [ %s ].\n" % "; ".join('"%s"' % x for x in sorted(set(mutated))))
+    # ---- dic/header.rs: Header::write_to (compile writes it first and uses the returned size as the base of all offsets)
+    rel = "sudachi/src/dic/header.rs"
+    ht = no_tests(F.strip_comments(F.src(rel)))
+    dsz = F.find_const(rel, "DESCRIPTION_SIZE")
+    ssz = F.find_const(rel, "STORAGE_SIZE", {"DESCRIPTION_SIZE": dsz})
+    out.append("Definition HEADER_DESCRIPTION_SIZE : Z := %s.\nDefinition HEADER_STORAGE_SIZE : Z := %s.\n" % (F.coq_int(dsz, "Z"), F.coq_int(ssz, "Z")))
+    hb = F.fn_body(ht, "write_to", rel)
+    hbad = []
+    # the guard: which length of the description is compared, how, with what
+    m = re.search(r"if\s+self\.description\.(len\(\)|chars\(\)\.count\(\))\s*(<=|<|>=|>)\s*Header::DESCRIPTION_SIZE\s*\{\s*return\s+Err", hb)
+    if m:
+        measure, op = ("true" if m.group(1) == "len()" else "false"), G.CMP[m.group(2)]
+    else:
+        hbad.append("Header::write_to: the description guard was not recognised")
+        measure, op = "true", "CGt"
+    out.append("(* error iff  <length of the description> CMP DESCRIPTION_SIZE; the length is in bytes (true) or in characters (false) *)\n")
+    out.append("Definition header_guard_in_bytes : bool := %s.\nDefinition header_guard : guard := mkG CastNone %s (OConst %s).\n" % (measure, op, F.coq_int(dsz, "Z")))
+    order = [hb.find(x) for x in ("w.write_all(&self.version.to_u64().to_le_bytes())?", "w.write_all(&self.create_time.to_le_bytes())?", "w.write_all(&self.description.as_bytes())?")]
+    if -1 in order or order != sorted(order):
+        hbad.append("Header::write_to: version / create_time / description are no longer written in this order")
+    # the padding: exactly DESCRIPTION_SIZE - len zero bytes (a subtraction that cannot be negative after the guard), or a clamped form
+    if re.search(r"for\s+_\s+in\s+0\.\.Header::DESCRIPTION_SIZE\s*-\s*self\.description\.len\(\)\s*\{\s*w\.write_all\(&\[0\]\)\?;\s*\}", hb):
+        pad = "true"
+    elif re.search(r"\.min\(Header::DESCRIPTION_SIZE\)|saturating_sub", hb):
+        pad = "false"
+    else:
+        pad = "true"
+        hbad.append("Header::write_to: the padding of the description was not recognised")
+    out.append("(* the padding is DESCRIPTION_SIZE - len(description bytes) zero bytes by plain subtraction (true) or clamped at zero (false) *)\nDefinition header_padding_exact : bool := %s.\n" % pad)
+    if not re.search(r"Ok\(Header::STORAGE_SIZE\)\s*$", hb.strip()):
+        hbad.append("Header::write_to no longer returns Header::STORAGE_SIZE")
+    pb = F.fn_body(ht, "description_parser", rel)
+    if not re.search(r"take\(Header::DESCRIPTION_SIZE\)\(input\)\?", pb) or "nul_terminated_str_from_slice(description_bytes)" not in pb:
+        hbad.append("description_parser is no longer take(DESCRIPTION_SIZE) + nul_terminated_str_from_slice")
+    if not re.search(r"tuple\(\(le_u64,\s*le_u64,\s*description_parser\)\)", F.fn_body(ht, "header_parser", rel)):
+        hbad.append("header_parser is no longer (le_u64, le_u64, description_parser)")
+    cbm = F.fn_body(no_tests(F.strip_comments(F.src(BUILD + "mod.rs"))), "compile", BUILD + "mod.rs")
+    if not re.search(r"let\s+mut\s+written\s*=\s*self\.header\.write_to\(w\)\?;\s*written\s*\+=\s*self\.write_grammar\(w\)\?;\s*self\.write_lexicon\(w,\s*written\)\?;", cbm):
+        hbad.append("compile no longer feeds the size returned by header.write_to into the offsets")
+    vers = {}
+    for name in ("SYSTEM_DICT_VERSION_2", "USER_DICT_VERSION_3"):
+        vers[name] = F.find_const(rel, name)
+        out.append("Definition %s : N := %s.\n" % (name, F.coq_int(vers[name])))
+    bm = no_tests(F.strip_comments(F.src(BUILD + "mod.rs")))
+    su = F.fn_body(bm, "set_user", BUILD + "mod.rs")
+    if not re.search(r"if\s+user\s*\{\s*self\.header\.version\s*=\s*HeaderVersion::UserDict\(UserDictVersion::Version3\)\s*\}\s*else\s*\{\s*self\.header\.version\s*=\s*HeaderVersion::SystemDict\(SystemDictVersion::Version2\)", su):
+        hbad.append("set_user no longer selects UserDict V3 / SystemDict V2")
+    out.append("Definition header_unrecognised : list string := [ %s ].\n" % "; ".join('"%s"' % x for x in hbad))
     # ---- index.rs: a lexicon without indexed entries
     rel = BUILD + "index.rs"
     t = no_tests(F.strip_comments(F.src(rel)))
